@@ -47,6 +47,8 @@ def main():
     if "--seeded" in sys.argv:
         for d in sorted(glob.glob(os.path.join(HERE, "seeded", "*", ""))):
             d = d.rstrip("/")
+            if not os.path.exists(os.path.join(d, "meta.json")):
+                continue
             meta = json.load(open(os.path.join(d, "meta.json")))
             if args and meta["property"] not in args and os.path.basename(d) not in args:
                 continue
